@@ -403,9 +403,9 @@ def run_check(prop, module, tier, seed, replay=None):
     setup_import_path()
     known = load_known(prop)
     ctx = Ctx(prop, tier, seed, known)
-    budget = float(os.environ.get('VERIF_BUDGET_S', '0') or 0)
-    if budget:
-        ctx.deadline = t0 + budget
+    # generation stops when the budget is used up (what was run until then is judged as usual)
+    budget = float(os.environ.get('VERIF_BUDGET_S', '0') or 0) or (240.0 if tier == 'quick' else 1500.0)
+    ctx.deadline = t0 + budget
 
     if replay:
         case = json.load(open(replay))
